@@ -5,4 +5,69 @@ import BiscuitModel.Model.Chan
 
 namespace Biscuit.Chan
 
+/-! ## APPLY, repaired -/
+
+/-- A returned consumer has either closed `stop` or seen the producer finish. -/
+def ApplyInv (c : ApplyCfg) : Prop :=
+  c.cons = .returned → (c.stopClosed = true ∨ c.prod = .finished)
+
+theorem applyInv_step {c c' : ApplyCfg} (hi : ApplyInv c) (h : c' ∈ applyStep true c) :
+    ApplyInv c' := by
+  obtain ⟨p, k, s⟩ := c
+  unfold ApplyInv at hi ⊢
+  revert c'
+  rcases p with (_ | n) | _ <;> rcases k with (_ | _ | k) | _ <;> cases s <;>
+    simp_all [applyStep]
+
+theorem applyInv_reach {c0 c : ApplyCfg} (h0 : ApplyInv c0) (hr : ApplyReach true c0 c) :
+    ApplyInv c := by
+  induction hr with
+  | refl => exact h0
+  | step _ hs ih => exact applyInv_step ih hs
+
+theorem applyInv_terminal {c : ApplyCfg} (hi : ApplyInv c) (ht : applyTerminal true c) :
+    applyAllDone c := by
+  obtain ⟨p, k, s⟩ := c
+  unfold ApplyInv at hi
+  unfold applyTerminal at ht
+  unfold applyAllDone
+  rcases p with (_ | n) | _ <;> rcases k with (_ | _ | k) | _ <;>
+    simp [applyStep] at ht hi ⊢ <;> simp_all
+
+/-! ## APPLY, pinned, consumer never returns early -/
+
+def ApplyInvNone (c : ApplyCfg) : Prop :=
+  c.cons = .taking none ∨ (c.cons = .returned ∧ c.prod = .finished)
+
+theorem applyInvNone_step {c c' : ApplyCfg} (hi : ApplyInvNone c) (h : c' ∈ applyStep false c) :
+    ApplyInvNone c' := by
+  obtain ⟨p, k, s⟩ := c
+  unfold ApplyInvNone at hi ⊢
+  revert c'
+  rcases p with (_ | n) | _ <;> rcases k with (_ | _ | k) | _ <;> cases s <;>
+    simp_all [applyStep]
+
+theorem applyInvNone_reach {c0 c : ApplyCfg} (h0 : ApplyInvNone c0) (hr : ApplyReach false c0 c) :
+    ApplyInvNone c := by
+  induction hr with
+  | refl => exact h0
+  | step _ hs ih => exact applyInvNone_step ih hs
+
+theorem applyInvNone_terminal {c : ApplyCfg} (hi : ApplyInvNone c) (ht : applyTerminal false c) :
+    applyAllDone c := by
+  obtain ⟨p, k, s⟩ := c
+  unfold ApplyInvNone at hi
+  unfold applyTerminal at ht
+  unfold applyAllDone
+  rcases p with (_ | n) | _ <;> rcases k with (_ | _ | k) | _ <;>
+    simp [applyStep] at ht hi ⊢
+
+/-! ## RUN, repaired -/
+
+theorem run_terminal_done {c : RunCfg} (ht : runTerminal true c) :
+    c.worker = .exited ∧ c.caller = .returned := by
+  obtain ⟨w, k, t, b⟩ := c
+  unfold runTerminal at ht
+  cases w <;> cases k <;> cases t <;> cases b <;> simp [runStep] at ht ⊢
+
 end Biscuit.Chan
